@@ -8,6 +8,26 @@ from .rules.c01 import segments, arm_of, bounded_decrement
 BORROWED = {"Q.find", "Q.to_vec", "Q.len", "Q.is_empty", "ATOMIC.load", "MAP.get", "MAP.iter"}
 
 
+def borrowed_origin(r, t):
+    """the BORROWED effect a term derives from, directly or through the element of an iteration over a borrowed
+    listing (`for o in level.iter_orders() { .. o .. }`: the loop variable is an element of the pre-loop iterator)"""
+    bad = mentions_eff(t, BORROWED)
+    if bad is not None:
+        return bad
+    for s in subterms(t):
+        if isinstance(s, tuple) and len(s) >= 3 and s[0] == "call" and isinstance(s[1], str) and s[1].endswith("::next") and s[2]:
+            for h in subterms(s[2][0]):
+                if isinstance(h, tuple) and len(h) == 3 and h[0] == "havoc":
+                    for ev in r.trace:
+                        if ev[0] == "loop" and ev[1] == h[1]:
+                            pre = ev[2].get(h[2])
+                            if pre is not None:
+                                bad = mentions_eff(pre, BORROWED)
+                                if bad is not None:
+                                    return bad
+    return None
+
+
 def usable(chk, rid, fn, site, r):
     if r.kind in ("unreachable", "panic"):
         return False
@@ -40,7 +60,7 @@ def rule_owned_operands(ctx, chk, L, rid):
             for role, op, operand, e in cev:
                 if op in ("fetch_add", "fetch_sub") and operand is not None:
                     n += 1
-                    bad = mentions_eff(operand, BORROWED)
+                    bad = borrowed_origin(r, operand)
                     chk.require(bad is None, rid, "%s:%s" % (b.defp, arm), e[5],
                                 "%s(%s) on the %s counter is computed from %s, a value looked up without taking ownership "
                                 "(another thread can replace the order before it is removed)" % (op, short(operand), role, bad and bad[1]),
@@ -48,7 +68,7 @@ def rule_owned_operands(ctx, chk, L, rid):
             for kind, o, e in qev:
                 if kind in ("push", "park"):
                     n += 1
-                    bad = mentions_eff(o, BORROWED)
+                    bad = borrowed_origin(r, o)
                     chk.require(bad is None, rid, "%s:%s:published" % (b.defp, arm), e[5],
                                 "the order put back into the queue is built from %s (a borrowed copy), not from the order taken out" % (bad and bad[1]),
                                 describe_path(r))
@@ -343,3 +363,44 @@ def rule_unanalysed_writers(ctx, chk, L, rid):
         chk.require(owner in reach or d in reach, rid, "%s:unanalysed-writer" % owner, span,
                     "%s on PriceLevel.%s in %s, which is neither an analysed mutator (%s) nor reached from one" % (
                         kind, f, d, ", ".join(m.split("::")[-1] for m in muts)))
+
+
+def rule_no_remove_then_push_in_extras(ctx, chk, L, rid):
+    """discovered mutators (not add/match/update_order): removing by id leaves the id's ticket in the FIFO, so a later
+    push of that id (a rollback, a re-queue) is found at the OLD position - such a function must drain with pop instead.
+    Flags Q.remove followed by Q.push anywhere in one call of such a function."""
+    for name in L.mutators():
+        if "::" not in name:
+            continue
+        b, res, _ = L.paths(name)
+        hit = None
+        for r in res:
+            if r.kind not in ("return", "backedge"):
+                continue
+            qs = [e for e in r.trace if e[0] == "eff" and e[1] in ("Q.remove", "Q.push") and e[2] and L.self_field(e[2][0]) == L.queue_field]
+            seen_remove = False
+            for e in qs:
+                if e[1] == "Q.remove":
+                    seen_remove = True
+                elif seen_remove:
+                    hit = (e, r)
+                    break
+            if hit:
+                break
+        # a remove in one loop and a push in a later loop of the same function are on different path segments of the
+        # walker only when both loops are entered: also look at the function's effect set
+        if not hit:
+            effs = {(c, m) for c, m, d, callee, sp in ctx.cg.effects_closure(b.defp) if c == "Q"}
+            direct = {(c, m) for c, m, bb, callee, sp in ctx.cg.direct.get(b.defp, []) if c == "Q"}
+            for d in ctx.db.closures_of(b.defp):
+                direct |= {(c, m) for c, m, bb, callee, sp in ctx.cg.direct.get(d.defp, []) if c == "Q"}
+            if ("Q", "remove") in direct and ("Q", "push") in effs:
+                hit = (None, None)
+        if hit:
+            e, r = hit
+            chk.fail(rid, "%s:remove-then-push" % b.defp, e[5] if e else b.span,
+                     "%s removes orders by id and pushes orders in the same call: the tickets of the removed ids stay in the FIFO, "
+                     "so a pushed order with one of those ids takes the old position (drain with pop instead)" % b.name,
+                     describe_path(r) if r else None)
+        else:
+            chk.ok(rid, "%s:remove-then-push" % b.defp, b.span)
